@@ -65,8 +65,11 @@ Definition ic_insert (c : icache) (a : assignment) (out : nat) : icache :=
 Definition restrict (ks : list key) (a : assignment) : assignment :=
   filter (fun kv => existsb (Nat.eqb (fst kv)) ks) a.
 Definition ic_check (c : icache) (a : assignment) : bool * icache :=
-  let '(b, s') := ss_check (sset c) (restrict (keys c) a) in
-  (b, {| keys := keys c; root := root c; sset := s'; flat := flat c |}).
+  match restrict (keys c) a with
+  | [] => (false, c)             (* a lookup that binds none of the keys is never covered *)
+  | ra => let '(b, s') := ss_check (sset c) ra in
+          (b, {| keys := keys c; root := root c; sset := s'; flat := flat c |})
+  end.
 
 (* retrieve: the `while key in assignment` loop + the final dispatch; [descend] is _yield_result.
    Structural recursion on the list of remaining keys. *)
